@@ -56,6 +56,13 @@ type Stats struct {
 	Stubs         map[string]int `json:"stubs"`
 	Assumes       map[string]int `json:"assumes"`
 	Observes      []string       `json:"observes,omitempty"`
+	Samples       []Sample       `json:"samples,omitempty"`
+}
+
+type Sample struct {
+	Model     map[string]uint64 `json:"model"`
+	Decisions int               `json:"decisions"`
+	Outcome   string            `json:"outcome"`
 }
 
 type pathEnd struct{ why string }         // path stops (infeasible assume, budget…)
